@@ -463,6 +463,12 @@ def lazy_builders(ctx):
         e1 = pat.msearch(src, "$S=trans_fn(self.getActive()[0])", e0)
         e1 = e1 and pat.msearch(src, "$E=trans_fn(Fiber._transCoord("
                                 "self.getActive()[1],lambdac:c-1))", e1)
+        if not e1:
+            # the getter's result held in a local
+            e1 = pat.msearch(src, "$A=self.getActive()", e0)
+            e1 = e1 and pat.msearch(src, "$S=trans_fn($A[0])", e1)
+            e1 = e1 and pat.msearch(src, "$E=trans_fn(Fiber._transCoord("
+                                    "$A[1],lambdac:c-1))", e1)
         tr = bool(e1) and pat.msearch(src, "$L=min($S,$E)", e1) is not None and \
             pat.msearch(src, "$H=Fiber._transCoord(max($S,$E),lambdac:c+1)", e1) is not None
         if iv and tr:
